@@ -8,6 +8,7 @@ import (
 	"image/jpeg"
 	"image/png"
 	"path/filepath"
+	"sort"
 	"sync"
 	"sync/atomic"
 	"testing"
@@ -219,6 +220,55 @@ func sweeps() {
 		}
 	}
 	ev.Class("sweep-jpeg", nt-n0)
+	// JPEG whose ICC_PROFILE APP2 chunks are in trouble (numbered from zero, a total of zero, a number above the total,
+	// repeated, disagreeing totals, one missing, no payload), before the frame header, after it, or on both sides: a
+	// matter for ICCProfile(); the picture is well formed and its frame header says what it says
+	n0 = nt
+	troubles := map[string][]build.Seg{
+		"numbered-from-zero": {build.ICCSeg(0, 2, []byte("ab")), build.ICCSeg(1, 2, []byte("cd"))},
+		"total-zero":         {build.ICCSeg(1, 0, []byte("abcd"))},
+		"zero-of-zero":       {build.ICCSeg(0, 0, []byte("abcd"))},
+		"number-above-total": {build.ICCSeg(3, 2, []byte("ab")), build.ICCSeg(1, 2, []byte("cd"))},
+		"repeated":           {build.ICCSeg(1, 2, []byte("ab")), build.ICCSeg(1, 2, []byte("ab")), build.ICCSeg(2, 2, []byte("cd"))},
+		"totals-disagree":    {build.ICCSeg(1, 2, []byte("ab")), build.ICCSeg(2, 3, []byte("cd"))},
+		"one-missing":        {build.ICCSeg(1, 3, []byte("ab")), build.ICCSeg(3, 3, []byte("cd"))},
+		"no-payload":         {build.ICCSeg(1, 1, nil)},
+		"header-only":        {{Marker: 0xE2, Data: []byte("ICC_PROFILE\x00")}, {Marker: 0xE2, Data: []byte("ICC_PROFILE\x00\x01")}},
+	}
+	var tnames []string
+	for k := range troubles {
+		tnames = append(tnames, k)
+	}
+	sort.Strings(tnames)
+	for ti, name := range tnames {
+		tr := troubles[name]
+		for where := 0; where < 4; where++ { // all before the frame header, all after, split around it, after it and once more before the scan
+			for _, marker := range []byte{0xC0, 0xC2} {
+				w, h := uint32(17+ti), uint32(3+where)
+				sof := build.Seg{Marker: marker, Data: build.SOF(8, uint16(h), uint16(w), [][3]byte{{1, 0x22, 0}, {2, 0x11, 1}, {3, 0x11, 1}})}
+				segs := []build.Seg{{Marker: 0xE0, Data: []byte("JFIF\x00\x01\x02\x00\x00\x01\x00\x01\x00\x00")}}
+				pre := 1
+				switch where {
+				case 0:
+					segs = append(append(segs, tr...), sof)
+					pre += len(tr)
+				case 1:
+					segs = append(append(segs, sof), tr...)
+				case 2:
+					segs = append(append(append(segs, tr[:1]...), sof), tr[1:]...)
+					pre++
+				default:
+					segs = append(append(append(segs, sof), tr...), build.Seg{Marker: 0xDB, Data: build.DQT(0)})
+					segs = append(segs, tr...)
+				}
+				j := build.JPEG{Segs: segs, SOS: []byte{3, 1, 0, 2, 0x11, 3, 0x11, 0, 63, 0}, Entropy: []byte{1}}
+				d, _ := j.Bytes()
+				s.run(gen.File{Format: "JPEG", Data: d, W: w, H: h, Bits: 8, Pre: pre, Desc: fmt.Sprintf("JPEG SOF%X %dx%d with ICC chunks in trouble (%s), placement %d", marker&0xF, w, h, name, where)})
+				nt++
+			}
+		}
+	}
+	ev.Class("sweep-jpeg-icc-chunk-trouble", nt-n0)
 	// VP8X 24 bit: boundary set in quick, every value (parallel) in thorough
 	n0 = nt
 	runX := func(w, h uint32) {
